@@ -258,6 +258,10 @@ pub fn run_property<P: Prop>(p: &P, tier: Tier) -> i32 {
                                         *st.known_hits.entry(k.signature.clone()).or_insert(0) += 1;
                                         return Ok(());
                                     }
+                                    if !*failed.borrow() {
+                                        // the failing case was evaluated too
+                                        stats.borrow_mut().evaluations += 1;
+                                    }
                                     *failed.borrow_mut() = true;
                                     Err(TestCaseError::fail(format!("{}\u{1}{}", f.signature, f.msg)))
                                 }
